@@ -27,7 +27,8 @@ CHECKS = {
     },
 }
 
-MUX0 = [G + "mux_run.go", G + "mux_stubs.go", "rt/fs_model.go"]
+MUX00 = [G + "mux_run.go", G + "mux_stubs.go", "rt/fs_model.go"]
+MUX0 = MUX00 + [G + "mux_stub_floats.go"]
 MUX = MUX0 + [G + "mux_stub_findcompat.go"]
 MUX_STUBS = [
     "mediacommon boundary stubbed (trusted: its Marshal/Unmarshal are mutually inverse): fmp4.Part/Init.Marshal+Unmarshal, PartSample.FillH264, "
@@ -213,13 +214,13 @@ CHECKS["C03"]["bounds"] = {k: dict(v, **{"lemma.ts2dur": "10 clock rates, timest
 CHECKS["C03"]["assumptions"] = MUX_STUBS + ["lemma.round / lemma.ceil are stated over the stdlib expression time.Duration.Seconds() = float64(sec) + float64(nsec)/1e9 on pre-split operands "
                                             "(mixing the integer division with floating point in one query does not finish in any installed solver)"]
 
-C19F = [G + "c19_parts.go", G + "c06_reload.go"] + MUX0
+C19F = [G + "c19_parts.go", G + "c06_reload.go"] + MUX00  # real targetDuration / partTargetDuration (concrete frame durations)
 CHECKS["C19"] = {
     "technique": "lemma on the real findCompatiblePartDuration with symbolic PartMinDuration per constant sample duration; real Low-Latency run with symbolic PartMinDuration",
     "bounds": {"quick": {"lemma.compat": "first 14 sample durations of the table (30/29.97/60/25/24/50 fps, AAC 48k/44.1k, Opus 10/20/40 ms, 120/100/90 fps), PartMinDuration symbolic in [50 ms, 2 s]",
                          "run": "K=8 frames at {30, 29.97, 60, 10} fps, key frame every 3..5 frames, PartMinDuration symbolic in [50, 400] ms, SegmentMinDuration 500 ms"},
                "thorough": {"lemma.compat": "all 37 sample durations (1..120 fps incl. 1001-based, AAC at 11 rates, Opus 2.5..60 ms)", "run": "K=14 frames"}},
-    "assumptions": MUX_STUBS[:3] + ["constant sample duration (the statement's premise)", "video-led streams in the run; audio-only regularity is covered by the lemma's AAC/Opus entries"],
+    "assumptions": MUX_STUBS[:2] + ["constant sample duration (the statement's premise)", "video-led streams in the run; audio-only regularity is covered by the lemma's AAC/Opus entries"],
     "outside": ["sample durations outside the table", "segments longer than K frames"],
     "runs": [
         {"name": "lemma.compat", "files": C19F, "fn": "VerifH_C19_compat", "workers": 16, "params_quick": {"TABLE": 14}, "params_thorough": {"TABLE": 37}, "reach": ["computed"],
@@ -396,6 +397,11 @@ CHECKS["C19"]["runs"] = CHECKS["C19"]["runs"] + [
     {"name": "run.ll.parts.audio", "files": C19F, "fn": "VerifH_C19_run", "workers": 16, "params": {"AUDIO": 1}, "params_quick": {"K": 10}, "params_thorough": {"K": 14},
      "reach": ["non-final-part", "end"], "budget_quick": 900, "budget_thorough": 7200}]
 CHECKS["C19"]["runs"][0]["params_quick"] = {"TABLE": 19}
+# key frame every 15..17 frames: a segment completes (playlist available, TARGETDURATION >= 1) at 30 / 29.97 fps too (60 fps: thorough tier);
+# with a key frame every 3..5 frames only the 10 fps stream completes a 500 ms segment within K frames
+CHECKS["C19"]["runs"] = CHECKS["C19"]["runs"] + [
+    {"name": "run.ll.parts.longgop", "files": C19F, "fn": "VerifH_C19_run", "workers": 16, "params": {"GOPBASE": 15, "PMINMAX_MS": 150}, "params_quick": {"K": 21}, "params_thorough": {"K": 36},
+     "reach": ["non-final-part", "non-final-part@3000", "non-final-part@3003", "end"], "budget_quick": 900, "budget_thorough": 7200}]
 
 CHECKS["C18"]["runs"] = CHECKS["C18"]["runs"] + [
     {"name": "run.mux.initfail", "files": [G + "c18_initfail.go", G + "c06_reload.go"] + MUX, "fn": "VerifH_C18_initfail", "workers": 16, "params": {"DISK": 1},
